@@ -1,10 +1,3 @@
 """Properties not claimed, each with the reason (kept in step with
 DESIGN.md section 4 and MANIFEST.json)."""
-NOT_APPLICABLE = [
-    {'property_id': 'C03',
-     'reason': 'convergence of numerical synthesis (QSearch/LEAP + '
-               'instantiation) within epsilon for every input is not a '
-               'contract any verifier available here can discharge; a '
-               'bounded run of the optimiser would be testing, a different '
-               'family'},
-]
+NOT_APPLICABLE: list = []
